@@ -3,6 +3,7 @@ import RactorModel.Lemmas.FactoryFrame
 import RactorModel.Extracted
 import RactorModel.Lemmas.FactoryCountW
 import RactorModel.Lemmas.FactoryShape
+import RactorModel.Lemmas.FactoryDrain
 
 /-!
 # C15 — Factory capacity controls: limits, rate, pool size, draining
@@ -177,6 +178,25 @@ theorem limit_worker_oldest (p : WP) (e : Env) (j : Job) (L : Nat) (hd : p.disc 
     (hbusy : p.curr ≠ []) : (p.enqueueJob e j).1.mq.length ≤ L :=
   enqueueJob_oldest_le p e j L hd hbusy
 
+/-! ## Rate limiting: rejections are reported `RateLimited` -/
+
+open Factory in
+/-- when the leaky bucket refuses (`check` false at the factory's clock), a dispatched job is
+reported `RateLimited` (once, plus the acceptance port), reaches neither a worker nor the queue,
+and no token is taken. -/
+theorem rate_limited_dispatch (w : W) (j : Job) (c : LeakyBucket.Cfg) (lb : LeakyBucket.LB)
+    (hne : j.expired w.env.now = false) (hd : w.drain = .notDraining) (hrl : w.rl = some (c, lb))
+    (hno : (LeakyBucket.check c lb w.env.now).2 = false) :
+    (w.dispatch j).env.log = w.env.log ++
+        (Ev.discard .rateLimited j.id w.env.hasHandler :: (if j.port then [Ev.reply j.id true] else [])) ∧
+    (w.dispatch j).queue = w.queue ∧ (w.dispatch j).pool = w.pool ∧
+    (w.dispatch j).rl = some (c, (LeakyBucket.check c lb w.env.now).1) := by
+  unfold W.dispatch W.routeMessage W.routeLimited
+  simp only [hne, hd, hrl, hno, Bool.false_eq_true, if_false, beq_self_eq_true, if_true, Bool.not_false]
+  refine ⟨?_, trivial, trivial, trivial⟩
+  unfold Env.reject Env.discard Env.emit
+  split <;> simp
+
 /-! ## Pool size: resize requests, worker deaths, convergence -/
 
 open Factory in
@@ -204,6 +224,75 @@ pool size to the request (capped at `GLOBAL_WORKER_POOL_MAXIMUM`) -/
 theorem resize_sets_size (w : W) (n : Nat) :
     (w.resizePool n).poolSize = if n = 0 then w.poolSize else min GLOBAL_WORKER_POOL_MAXIMUM n :=
   resizePool_poolSize w n
+
+/-! ## Draining -/
+
+open Factory in
+/-- (no way back) once the factory has handled `DrainRequests` (its drain state left
+`NotDraining`) no sequence of operations whatsoever brings it back. -/
+theorem drain_is_forever (w : W) (steps : List Step) (hd : w.drain ≠ .notDraining) :
+    (w.runSteps steps).drain ≠ .notDraining :=
+  runSteps_drainMono w steps hd
+
+open Factory in
+/-- (new jobs are refused) in a draining or drained factory every `Dispatch` is rejected with
+`Shutdown` — reported once to the discard handler, handed back once through the acceptance
+port — and reaches neither a worker nor a queue. -/
+theorem drain_refuses_dispatch (w : W) (j : Job) (hne : j.expired w.env.now = false)
+    (hd : w.drain ≠ .notDraining) :
+    (w.dispatch j).env.log = w.env.log ++
+        (Ev.discard .shutdown j.id w.env.hasHandler :: (if j.port then [Ev.reply j.id true] else [])) ∧
+    (w.dispatch j).queue = w.queue ∧ (w.dispatch j).pool = w.pool := by
+  unfold W.dispatch
+  have : (w.drain == Drain.notDraining) = false := by
+    cases hw : w.drain <;> simp_all
+  simp only [hne, this, Bool.false_eq_true, if_false]
+  refine ⟨?_, trivial, trivial⟩
+  unfold Env.reject Env.discard Env.emit
+  split <;> simp
+
+open Factory in
+/-- (`DrainRequests` is handled) the handler moves to `Draining` and runs the draining hook -/
+theorem drain_request_handled (w : W) :
+    (w.handleMsg .drainRequests).drain = .draining ∧
+    (w.handleMsg .drainRequests).env.log = w.env.log ++ [Ev.hook .draining] := by
+  simp [W.handleMsg, W.emit, Env.emit]
+
+open Factory in
+/-- (the factory then stops) at the end of any handler, a draining factory whose workers are
+all free and whose queue is empty marks itself drained and asks itself to stop; the actor loop
+honours the stop before any further supervision event or message; `post_stop` leaves it stopped
+and runs the stopped hook last. -/
+theorem drained_factory_stops (w : W) (hb : w.blocked = false) (hd : w.drain = .draining)
+    (hfree : w.pool.all (·.isAvailable) = true) (hq : w.queue = []) :
+    w.afterHandle.stopSignal = true ∧ w.afterHandle.drain = .drained ∧
+    (∀ w' : W, w'.stopSignal = true → w'.stopped = false → w'.blocked = false →
+      w'.loopStep = some w'.postStop ∧ w'.postStop.stopped = true) := by
+  refine ⟨?_, ?_, ?_⟩
+  · unfold W.afterHandle W.isDrained
+    simp [hb, hd, hfree, hq]
+  · unfold W.afterHandle W.isDrained
+    simp [hb, hd, hfree, hq]
+  · intro w' hs hst hbl
+    refine ⟨?_, rfl⟩
+    unfold W.loopStep
+    simp [hs, hst, hbl]
+
+open Factory in
+/-- … and does not stop earlier: with a worker still busy or a job still queued the drain state
+stays `Draining` and no stop is requested (previously accepted jobs get their turn). -/
+theorem draining_waits_for_work (w : W) (hb : w.blocked = false) (hd : w.drain = .draining)
+    (hs : w.stopSignal = false)
+    (hbusy : w.pool.all (·.isAvailable) = false ∨ w.queue ≠ []) :
+    w.afterHandle.stopSignal = false ∧ w.afterHandle.drain = .draining := by
+  unfold W.afterHandle W.isDrained
+  rcases hbusy with h | h
+  · simp [hb, hd, h, hs]
+  · have : (w.queue.length == 0) = false := by
+      cases hq : w.queue with
+      | nil => exact absurd hq h
+      | cons _ _ => rfl
+    simp [hb, hd, this, hs]
 
 /-! ## Source-derived constants (E-SRC) -/
 
@@ -269,8 +358,14 @@ end C15
 #print axioms C15.limit_dispatch
 #print axioms C15.limit_worker_queue
 #print axioms C15.limit_worker_oldest
+#print axioms C15.rate_limited_dispatch
 #print axioms C15.pool_shape
 #print axioms C15.pool_converges
 #print axioms C15.resize_sets_size
+#print axioms C15.drain_is_forever
+#print axioms C15.drain_refuses_dispatch
+#print axioms C15.drain_request_handled
+#print axioms C15.drained_factory_stops
+#print axioms C15.draining_waits_for_work
 #print axioms C15.extracted_pool_maximum
 #print axioms C15.extracted_calculate_frequency
